@@ -1,4 +1,6 @@
-package main
+// Package hc is the shared part of the /verif Go harnesses (tie H): run context, summary,
+// Coq case-file writer, Coq term printers.
+package hc
 
 import (
 	"encoding/json"
@@ -148,7 +150,7 @@ func (c *Ctx) Finish() error {
 		c.Sum.Shards = append(c.Sum.Shards, name)
 		index[name] = c.shardJSON[k]
 	}
-	if err := writeJSON(filepath.Join(c.Out, "cases.json"), index); err != nil {
+	if err := WriteJSON(filepath.Join(c.Out, "cases.json"), index); err != nil {
 		return err
 	}
 	c.Sum.DistinctNontrivial = len(c.distinct)
@@ -169,10 +171,10 @@ func (c *Ctx) Finish() error {
 	if c.Sum.Samples == nil {
 		c.Sum.Samples = []any{}
 	}
-	return writeJSON(filepath.Join(c.Out, "summary.json"), c.Sum)
+	return WriteJSON(filepath.Join(c.Out, "summary.json"), c.Sum)
 }
 
-func writeJSON(path string, v any) error {
+func WriteJSON(path string, v any) error {
 	b, err := json.MarshalIndent(v, "", " ")
 	if err != nil {
 		return err
@@ -182,53 +184,53 @@ func writeJSON(path string, v any) error {
 
 // ---- Coq term printers -------------------------------------------------------------------------
 
-func coqZ(i int64) string {
+func CoqZ(i int64) string {
 	if i < 0 {
 		return fmt.Sprintf("(%d)", i)
 	}
 	return fmt.Sprintf("%d", i)
 }
 
-func coqBigZ(i *big.Int) string {
+func CoqBigZ(i *big.Int) string {
 	if i.Sign() < 0 {
 		return "(" + i.String() + ")"
 	}
 	return i.String()
 }
 
-func coqN(u uint64) string { return fmt.Sprintf("%d%%N", u) }
+func CoqN(u uint64) string { return fmt.Sprintf("%d%%N", u) }
 
-func coqBool(b bool) string {
+func CoqBool(b bool) string {
 	if b {
 		return "true"
 	}
 	return "false"
 }
 
-func coqList(items []string) string { return "[" + strings.Join(items, "; ") + "]" }
+func CoqList(items []string) string { return "[" + strings.Join(items, "; ") + "]" }
 
-func coqPt(p [2]int64) string { return fmt.Sprintf("(%s, %s)", coqZ(p[0]), coqZ(p[1])) }
+func CoqPt(p [2]int64) string { return fmt.Sprintf("(%s, %s)", CoqZ(p[0]), CoqZ(p[1])) }
 
-func coqPts(ps [][2]int64) string {
+func CoqPts(ps [][2]int64) string {
 	s := make([]string, len(ps))
 	for i, p := range ps {
-		s[i] = coqPt(p)
+		s[i] = CoqPt(p)
 	}
-	return coqList(s)
+	return CoqList(s)
 }
 
-func coqRings(rs [][][2]int64) string {
+func CoqRings(rs [][][2]int64) string {
 	s := make([]string, len(rs))
 	for i, r := range rs {
-		s[i] = coqPts(r)
+		s[i] = CoqPts(r)
 	}
-	return coqList(s)
+	return CoqList(s)
 }
 
-func coqPolys(ps [][][][2]int64) string {
+func CoqPolys(ps [][][][2]int64) string {
 	s := make([]string, len(ps))
 	for i, p := range ps {
-		s[i] = coqRings(p)
+		s[i] = CoqRings(p)
 	}
-	return coqList(s)
+	return CoqList(s)
 }
